@@ -55,12 +55,14 @@ def run_pipeline(chk, want, quick_cases=1500, full_cases=60000, nconc=(3, 8),
         cases = []
         for k in sorted(by):
             cases += by[k] if len(by[k]) <= per else rnd.sample(by[k], per)
-    concs = common.concs(nconc[1] if thorough else nconc[0], rnd)
+    # (own generator: the replay of a case must rebuild exactly these concretisations)
+    concs = common.concs(nconc[1] if thorough else nconc[0], random.Random(chk.seed * 7919 + 13))
     skipped = 0
     ops = {}
     for i, case in enumerate(cases):
         conc = concs[i % len(concs)] if not thorough else None
         for c in ([conc] if conc else rnd.sample(concs, 2)):
+            ak = common._ASSIGN_COUNT
             res, skip = pr.replay(case, c, want=want)
             skipped += skip
             chk.validated += 0 if skip else 1
@@ -69,7 +71,7 @@ def run_pipeline(chk, want, quick_cases=1500, full_cases=60000, nconc=(3, 8),
             for prop, key, desc in res:
                 if prop == chk.pid:
                     chk.violation(key, desc, {"kind": "pipeline", "case": case, "conc": c.name, "conc_index": concs.index(c),
-                                              "seed": chk.seed, "nconc": len(concs)})
+                                              "seed": chk.seed, "nconc": len(concs), "assign_count": ak})
         if i < 3:
             chk.sample({"root": {k: case["root"][k] for k in ("cls", "len", "hasT", "nchan", "align")},
                         "hist": case["hist"], "expected": {k: case["cur"][k] for k in ("len", "t0", "per", "k0", "stride", "nchan", "clo")}})
@@ -101,8 +103,8 @@ def replay(doc):
         rej, _ = trace_util.validate("Trace_Slice", [{k: v for k, v in ev.items() if not k.startswith("_")}])
         print(ev["_desc"], "->", [f for _, f in rej] or "accepted")
         return 1 if rej else 0
-    rnd = random.Random(c["seed"])
-    concs = common.concs(c["nconc"], rnd)
+    concs = common.concs(c["nconc"], random.Random(c["seed"] * 7919 + 13))
+    common._ASSIGN_COUNT = c.get("assign_count", 0)
     res, skip = pr.replay(c["case"], concs[c["conc_index"]], want=(doc["property"],))
     res = [r for r in res if r[0] == doc["property"]]
     for r in res:
